@@ -42,6 +42,9 @@ Qed.
 Lemma apply_MapQuery_vtl msg : is_vtl (apply_mapper MapQuery (RawDB msg)) = true.
 Proof. simpl. destruct (map_query_total msg) as [k [c ->]]. reflexivity. Qed.
 
+Lemma apply_MapNormalize_vtl msg : is_vtl (apply_mapper MapNormalize (RawDB msg)) = true.
+Proof. reflexivity. Qed.
+
 (* every handler the current code has is total on DuckDB errors: in a handled stage ANY DuckDB message becomes a VTL error *)
 Lemma handled_stage_total s msg : stage_mapper_impl s <> NoMap -> is_vtl (apply_mapper (stage_mapper_impl s) (RawDB msg)) = true.
 Proof.
@@ -49,8 +52,6 @@ Proof.
     solve [apply apply_MapQuery_vtl | apply apply_MapLoad_vtl | apply apply_MapNormalize_vtl].
 Qed.
 
-Lemma apply_MapNormalize_vtl msg : is_vtl (apply_mapper MapNormalize (RawDB msg)) = true.
-Proof. reflexivity. Qed.
 
 (* ------------------------------------------------------------------ escape_closed: the general theorem *)
 Section Closed.
